@@ -2,7 +2,7 @@
 """Regenerates MANIFEST.json from the table below (kept in one place so the file stays valid)."""
 import json, os, subprocess
 V = os.path.dirname(os.path.abspath(__file__))
-hook_commits = ["b052f90", "0c70bad"]
+hook_commits = ["b052f90", "0c70bad", "e49a9af"]
 claimed = json.load(open(os.path.join(V, "harness", "claims.json")))
 props = [json.loads(l)["id"] for l in open(os.path.join(V, "properties.jsonl"))]
 checks, na = [], []
